@@ -1,2 +1,9 @@
 # Table of claimed properties; exec'd by mkmanifest.py.
 NOT_CLAIMED = {}
+
+CLAIMED['C13'] = dict(
+  category='exploration',
+  technique='runtime monitoring: recorded concurrent histories of the real EndpointIndex checked for linearizability with porcupine (gate-enumerated windows via hook H2 + free-running stress under -race), plus differential oracle of real EDS generator output vs reference membership function',
+  text='Held on every execution produced: all ordered (parked update x concurrent registry op x initial population) pairs at the lookup/lock window, thousands of PRNG multi-registry histories under the race detector, and thousands of PRNG shard/subset/health/locality/visibility worlds where generator (cold and cached) and builder output equal the reference member set and locality weights. Exploration, not proof: schedules outside those produced and inputs outside the grammar are not covered.',
+  note='Trusted: porcupine v1.3.0; the sequential spec map[service]map[registry]->update id; unique ids in endpoints; the reference membership function (our reading of the property incl. documented DestinationRule distribute semantics); model.Service objects from the in-memory registry stand in for real registries. Multi-network gateways, waypoints and InferencePool semantics are not driven.',
+)
